@@ -47,6 +47,9 @@ pub struct Case {
     pub first: u8,
     /// a block is mined while the node is unreachable to the tower
     pub block_during_outage: bool,
+    /// a flapping node: 0 = one outage; m > 0 = a second outage starts m calls after the first one ended
+    #[serde(default)]
+    pub flap: u8,
 }
 
 #[derive(Debug, Clone, PartialEq, Eq, Default)]
@@ -69,6 +72,8 @@ pub struct Out {
     pub setup_failed: Option<String>,
     /// the node answered 'already in block chain' to a (re-)submission
     pub saw_already_in_chain: bool,
+    /// thousands of calls failed within one outage (see simnode::FLOOD_LIMIT); was the tower's own flag still 'reachable' then?
+    pub flooded: bool,
 }
 
 pub fn execute(case: &Case, slot: usize) -> Out {
@@ -83,7 +88,7 @@ pub fn execute(case: &Case, slot: usize) -> Out {
     let dir = scratch_dir(&format!("c12-{slot}"));
     let _ = std::fs::remove_dir_all(&dir);
     let cfg = TowerCfg { slots: 10, duration: 1000, grace: 6 };
-    let mut out = Out { fin: None, deadlock: None, panics: vec![], calls: 0, replies: vec![], outage_hit_thread: None, outage_hit_call: None, hung: false, setup_failed: None, saw_already_in_chain: false };
+    let mut out = Out { fin: None, deadlock: None, panics: vec![], calls: 0, replies: vec![], outage_hit_thread: None, outage_hit_call: None, hung: false, setup_failed: None, saw_already_in_chain: false, flooded: false };
     let mut tower = match Tower::boot(node.clone(), &dir, cfg) {
         Ok(t) => t,
         Err(e) => {
@@ -107,6 +112,9 @@ pub fn execute(case: &Case, slot: usize) -> Out {
             st.fault.outage_at_call = Some(calls_before + case.outage_at as usize);
             st.fault.outage_polls = case.outage_polls as usize;
             st.fault.kind = case.kind;
+            if case.flap > 0 {
+                st.fault.second_outage_after = Some(case.flap as usize);
+            }
         }
     }
     let replies: Arc<std::sync::Mutex<Vec<(String, bool, String)>>> = Arc::new(std::sync::Mutex::new(vec![]));
@@ -153,9 +161,16 @@ pub fn execute(case: &Case, slot: usize) -> Out {
         });
         let req_script = sc.req_script.clone();
         let replies2 = replies.clone();
+        let node3 = node.clone();
         let req_body: Box<dyn FnOnce() + Send + '_> = Box::new(move || {
             for op in &req_script {
-                let knew_down = !*reachable.0.lock().unwrap();
+                // the tower knows: its own flag says so, or (independently of its bookkeeping) two of its calls have already
+                // failed during the outage that is still going on - the first failure was handled before the second call was made
+                let seen_failing = {
+                    let st = node3.lock();
+                    st.fault.in_outage && st.fault.outage_started_at_seq.map_or(false, |from| st.log[from.min(st.log.len())..].iter().filter(|e| e.verdict == Verdict::TransportError).count() >= 2)
+                };
+                let knew_down = !*reachable.0.lock().unwrap() || seen_failing;
                 let r = api_call(&api, op);
                 replies2.lock().unwrap().push((format!("{op:?}"), knew_down, r));
             }
@@ -165,6 +180,7 @@ pub fn execute(case: &Case, slot: usize) -> Out {
         sched::run_with(slot, bodies, &[], Some(order))
     };
     out.calls = (node.lock().calls - calls_before) as u32;
+    out.flooded = node.lock().fault.flooded;
     out.replies = replies.lock().unwrap().clone();
     out.hung = res.hung;
     out.deadlock = res.deadlock.clone();
@@ -255,6 +271,13 @@ pub fn scenarios() -> Vec<Scenario> {
 }
 
 pub fn judge(case: &Case, out: &Out, reference: &Final) -> Vec<Violation> {
+    if out.flooded {
+        return vec![Violation {
+            property: "C12".into(),
+            signature: "calls-keep-failing-without-a-pause".into(),
+            message: format!("scenario `{}`, outage from call #{} (flap {}): more than {} node calls failed within one outage - the tower retries without waiting for the node to be flagged reachable again (it has not noticed an outage it is in the middle of)", case.scenario.name, case.outage_at, case.flap, crate::simnode::FLOOD_LIMIT),
+        }];
+    }
     let mut v = vec![];
     let path = match out.outage_hit_thread.as_deref() {
         Some("chain-monitor") => "block-path",
@@ -382,10 +405,10 @@ pub fn run(ctx: &Ctx) -> i32 {
     }
     // enumerate: scenario x first thread x (k over the calls of the fault-free run) x r x kind x block during outage
     let mut cases: Vec<(Case, Final)> = vec![];
-    let rs: Vec<u8> = if ctx.thorough() { vec![1, 2, 3] } else { vec![1, 2] };
+    let rs: Vec<u8> = if ctx.thorough() { vec![1, 2, 3, 5] } else { vec![1, 2, 3] };
     for sc in scenarios() {
         for first in 0..2u8 {
-            let base = Case { scenario: sc.clone(), outage_at: 0, outage_polls: 0, kind: 0, first, block_during_outage: false };
+            let base = Case { scenario: sc.clone(), outage_at: 0, outage_polls: 0, kind: 0, first, block_during_outage: false, flap: 0 };
             let dry = execute(&base, 0);
             let reference = match dry.fin {
                 Some(f) => f,
@@ -398,10 +421,13 @@ pub fn run(ctx: &Ctx) -> i32 {
                 for r in &rs {
                     for kind in 0..3u8 {
                         for bdo in [false, true] {
-                            if !ctx.thorough() && kind == 1 && bdo {
-                                continue;
+                            cases.push((Case { scenario: sc.clone(), outage_at: k, outage_polls: *r, kind, first, block_during_outage: bdo, flap: 0 }, reference.clone()));
+                            // a flapping node: back for one or two calls, then gone again
+                            if !bdo && (ctx.thorough() || *r <= 2) {
+                                for flap in 1..=2u8 {
+                                    cases.push((Case { scenario: sc.clone(), outage_at: k, outage_polls: *r, kind, first, block_during_outage: bdo, flap }, reference.clone()));
+                                }
                             }
-                            cases.push((Case { scenario: sc.clone(), outage_at: k, outage_polls: *r, kind, first, block_during_outage: bdo }, reference.clone()));
                         }
                     }
                 }
@@ -446,7 +472,7 @@ pub fn run(ctx: &Ctx) -> i32 {
     let mut ev = Evidence::default();
     ev.level = "fault_enumeration".into();
     ev.rule = format!(
-        "{} reference scenarios (breach answered on the block path / on the request path / both, stale re-send, reorg re-announcement, multi-block poll) x which thread starts x an outage starting at EVERY call (RPC and block source) the fault-free run makes x failing polls in {:?} x 3 transport-error kinds x block mined during the outage or not = {total} runs of the real tower on scheduler-controlled threads; oracle: state after recovery = fault-free run, 'unavailable' while the node is known down, nobody blocked forever (structural: no runnable thread). Non-trivial = the outage starts at a carrier RPC or a block download; distinct = distinct case tuples.",
+        "{} reference scenarios (breach answered on the block path / on the request path / both, stale re-send, reorg re-announcement, multi-block poll) x which thread starts x an outage starting at EVERY call (RPC and block source) the fault-free run makes x failing polls in {:?} x 3 transport-error kinds x block mined during the outage or not (+ flapping node: a second outage 1 or 2 calls after the first ended) = {total} runs of the real tower on scheduler-controlled threads; oracle: state after recovery = fault-free run, 'unavailable' while the node is known down (the tower's own flag, or two of its calls already failed in the ongoing outage), nobody blocked forever (structural: no runnable thread). Non-trivial = the outage starts at a carrier RPC or a block download; distinct = distinct case tuples.",
         scenarios().len(),
         rs
     );
